@@ -44,6 +44,9 @@ type LSession struct {
 	Twin     [][]LMsg `json:"twin"`
 	TwinBase int32    `json:"twinbase"`
 	Feat     []string `json:"feat"`
+	Exact    bool     `json:"exact"`  // listen level: the driver's clock origin was pinned (see runSession), so time stamps are absolute: stamp = sum of dt
+	OnErr    bool     `json:"onerr"`  // an error handler is installed (midi.HandleError at listen level, ListenConfig.OnErr at reader level)
+	Errs     int      `json:"errs"`   // number of times it was called
 }
 
 func cp(b []byte) hx.B { return append(hx.B{}, b...) }
@@ -51,12 +54,13 @@ func cp(b []byte) hx.B { return append(hx.B{}, b...) }
 // runSession executes the session on the real code and fills Out / Panic.
 func runSession(s *LSession) {
 	var cur []LMsg
-	s.Panic = ""
+	s.Panic, s.Errs, s.Exact = "", 0, false
 	for i := range s.Chunks {
 		s.Chunks[i].Out = []LMsg{}
 	}
 	switch s.Lvl {
 	case "listen":
+		tNew := time.Now()
 		drv := testdrv.New("verif")
 		ins, _ := drv.Ins()
 		outs, _ := drv.Outs()
@@ -96,6 +100,9 @@ func runSession(s *LSession) {
 				return
 			}
 		}
+		if s.OnErr {
+			opts = append(opts, midi.HandleError(func(error) { s.Errs++ }))
+		}
 		p := hx.Catch(func() {
 			stop, err = midi.ListenTo(ins[0], func(m midi.Message, ts int32) {
 				cur = append(cur, LMsg{B: hx.B(m), Ts: ts})
@@ -107,6 +114,15 @@ func runSession(s *LSession) {
 		if p != "" || err != nil {
 			s.Panic = fmt.Sprintf("setup: %s %v", p, err)
 			return
+		}
+		// testdrv stamps relative to time.Now() inside Listen while its virtual clock starts at New: the first stamp is
+		// sum(dt) - (Listen - New), truncated.  Advancing the virtual clock by an upper bound g of that gap puts the first
+		// stamp into [sum(dt), sum(dt)+g): exactly sum(dt) ms when g < 1 ms.  Otherwise (loaded machine) the origin is not pinned.
+		if g := time.Since(tNew); g < 900*time.Microsecond {
+			drv.Sleep(g)
+			s.Exact = true
+		} else {
+			s.Exact = false
 		}
 		for i := range s.Chunks {
 			c := &s.Chunks[i]
@@ -128,8 +144,11 @@ func runSession(s *LSession) {
 		}
 	case "reader":
 		var rd *drivers.Reader
-		rd = drivers.NewReader(drivers.ListenConfig{SysEx: s.Sysex, SysExBufferSize: s.Cap, ActiveSense: s.As, TimeCode: s.Tc},
-			func(m []byte, ts int32) { cur = append(cur, LMsg{B: hx.B(m), Ts: ts}) })
+		conf := drivers.ListenConfig{SysEx: s.Sysex, SysExBufferSize: s.Cap, ActiveSense: s.As, TimeCode: s.Tc}
+		if s.OnErr {
+			conf.OnErr = func(error) { s.Errs++ }
+		}
+		rd = drivers.NewReader(conf, func(m []byte, ts int32) { cur = append(cur, LMsg{B: hx.B(m), Ts: ts}) })
 		for i := range s.Chunks {
 			c := &s.Chunks[i]
 			cur = nil
@@ -151,6 +170,9 @@ func runWithTwin(s *LSession) {
 		s.Prev = []bool{}
 	}
 	runSession(s)
+	for try := 0; try < 50 && s.Lvl == "listen" && s.Panic == "" && !s.Exact; try++ {
+		runSession(s) // the clock origin could not be pinned (scheduling hiccup): the session is deterministic, run it again
+	}
 	s.Twin = [][]LMsg{}
 	s.TwinBase = 0
 	if s.Lvl == "listen" && !(s.Sysex && s.As && s.Tc) && s.Panic == "" {
@@ -162,14 +184,21 @@ func runWithTwin(s *LSession) {
 			t.Chunks[i] = LChunk{Dt: c.Dt, Bytes: c.Bytes}
 		}
 		runSession(&t)
+		for try := 0; try < 50 && t.Panic == "" && !t.Exact; try++ {
+			runSession(&t)
+		}
 		if t.Panic != "" {
 			return // the all-on run is judged on its own in another session
 		}
 		for _, c := range t.Chunks {
 			s.Twin = append(s.Twin, c.Out)
 		}
-		if len(t.Chunks) > 0 && len(t.Chunks[0].Out) > 0 {
-			s.TwinBase = t.Chunks[0].Out[0].Ts
+		if !(s.Exact && t.Exact) {
+			// origin not pinned in one of the runs: both are compared relative to their calibration chunk (if there is one)
+			s.Exact = false
+			if len(t.Chunks) > 0 && len(t.Chunks[0].Out) > 0 {
+				s.TwinBase = t.Chunks[0].Out[0].Ts
+			}
 		}
 	}
 }
@@ -403,7 +432,12 @@ func genSession(r *rand.Rand, id int, lvl string) *LSession {
 		s.Prev = []bool{r.Intn(2) == 0, r.Intn(2) == 0, r.Intn(2) == 0}
 		feat["previous_listener"] = true
 	}
-	if lvl == "listen" { // calibration chunk (a real-time Start: touches no decoder state) fixes the origin of the driver's clock
+	s.OnErr = r.Intn(3) == 0
+	if s.OnErr {
+		feat["error_handler"] = true
+	}
+	if lvl == "listen" && r.Intn(3) == 0 { // calibration chunk (a real-time Start: touches no decoder state): lets a session whose
+		// clock origin could not be pinned (Exact = false) still be judged; most sessions start with arbitrary bytes at an arbitrary time
 		s.Chunks = append(s.Chunks, LChunk{Dt: 0, Bytes: hx.B{0xFA}})
 	}
 	s.Chunks = append(s.Chunks, chunkUp(r, stream)...)
